@@ -5,7 +5,7 @@ from models import refinterp, refscan
 
 ID = "C13"
 RULE = (
-    "case = (k side-effecting marker components push(\"m<i>\", line_number()) / print, one control component inserted at a "
+    "case = (k components - side-effecting markers push(\"m<i>\", line_number()) / print, optionally one that declines the firing line -, one control component inserted at a "
     "position 0..k, a file over {[k,idx],[n,idx],blank}, a scan window); the control is one of stop(C), C->stop(), stop(), "
     "skip(C), C->skip(), advance(1), advance(2), C->advance(1), last()->push, last.nocontrib()->push, bare last() in final "
     "position, C = (#0 == \"k\"); compared with models/refinterp.py: returned lines, every marker stack, printouts, "
@@ -58,14 +58,18 @@ def programs(kmax, with_print):
             for cname, ctrl in CONTROLS.items():
                 if cname == "last()" and pos != k:
                     continue
-                variants = [None]
+                variants = [(None, None)]
+                if k >= 2:
+                    variants.append((None, 0))  # one marker replaced by a component that DECLINES the firing line (votes False on k lines)
                 if with_print and k >= 2:
-                    variants = [None, k - 1]
-                for pv in variants:
+                    variants.append((k - 1, None))
+                for pv, fv in variants:
                     comps = []
                     for i in range(k):
                         if pv is not None and i == pv:
                             comps.append(fn("print", [], [["t", "p"]]))
+                        elif fv is not None and i == fv:
+                            comps.append(["==", ["h", 0], ["t", "n"]])
                         else:
                             comps.append(marker(i))
                     comps.insert(pos, ctrl)
